@@ -58,6 +58,13 @@ func (c *simConn) SetWriteDeadline(t time.Time) error { return nil }
 // ---- nodes and links ----------------------------------------------------------
 
 // netKnobs are the per-run protocol parameters (swarm style).
+// nodeLimits: size limits of one node that differ from the rest of the network (legal: every node validates its
+// outgoing limit against its OWN block size setting only)
+type nodeLimits struct {
+	blockSize uint32
+	maxOut    uint64
+}
+
 type netKnobs struct {
 	maxOutgoingMsgLen   uint64
 	maxGetBlocksResp    uint64
@@ -76,6 +83,7 @@ type netNode struct {
 	mirror uint32
 	links  []*link
 	dcfg   daemon.Config
+	maxOut uint64 // this node's own maximum outgoing message length
 }
 
 // link is one connection as seen by one real node.
@@ -107,6 +115,7 @@ type netSim struct {
 	w       *world
 	nodes   []*netNode
 	knobs   netKnobs
+	perNode map[int]nodeLimits // per-node overrides of the size limits (by node id)
 	linkSeq int
 	// monitor is called for every frame a real node puts on the wire
 	monitor func(from *netNode, l *link, frame []byte)
@@ -155,11 +164,15 @@ func (ns *netSim) addDaemon(n *node, ip string, port uint16, mirror uint32) *net
 	cfg.Daemon.UnconfirmedVerifyTxn = params.VerifyTxn{BurnFactor: ns.w.mcfg.Unconfirmed.BurnFactor, MaxTransactionSize: ns.w.mcfg.Unconfirmed.MaxTxnSize, MaxDropletPrecision: ns.w.mcfg.Unconfirmed.MaxDecimals}
 	cfg.Daemon.MaxBlockTransactionsSize = ns.w.mcfg.MaxBlockSize
 	cfg.Daemon.MaxOutgoingMessageLength = ns.knobs.maxOutgoingMsgLen
+	if lim, ok := ns.perNode[n.id]; ok {
+		cfg.Daemon.MaxBlockTransactionsSize = lim.blockSize
+		cfg.Daemon.MaxOutgoingMessageLength = lim.maxOut
+	}
 	cfg.Daemon.MaxGetBlocksResponseCount = ns.knobs.maxGetBlocksResp
 	cfg.Daemon.GetBlocksRequestCount = ns.knobs.getBlocksRequestCnt
 	cfg.Daemon.IPCountsMax = ns.knobs.ipCountsMax
 	cfg.Daemon.MaxTxnAnnounceNum = ns.knobs.maxTxnAnnounce
-	cfg.Pool.MaxOutgoingMessageLength = int(ns.knobs.maxOutgoingMsgLen)
+	cfg.Pool.MaxOutgoingMessageLength = int(cfg.Daemon.MaxOutgoingMessageLength)
 	if ns.knobs.maxIncomingMsgLen > 0 {
 		cfg.Pool.MaxIncomingMessageLength = ns.knobs.maxIncomingMsgLen
 		cfg.Daemon.MaxIncomingMessageLength = uint64(ns.knobs.maxIncomingMsgLen)
@@ -173,7 +186,7 @@ func (ns *netSim) addDaemon(n *node, ip string, port uint16, mirror uint32) *net
 	if err != nil {
 		sim.Harnessf("daemon.New: %v", err)
 	}
-	nn := &netNode{node: n, dm: dm, pool: dm.VerifGnetPool(), ip: ip, port: port, mirror: mirror, dcfg: cfg}
+	nn := &netNode{node: n, dm: dm, pool: dm.VerifGnetPool(), ip: ip, port: port, mirror: mirror, dcfg: cfg, maxOut: cfg.Daemon.MaxOutgoingMessageLength}
 	go nn.pool.RunOffline() //nolint:errcheck // the strand server: a pure rendez-vous goroutine inside the bubble
 	ns.nodes = append(ns.nodes, nn)
 	return nn
